@@ -135,12 +135,42 @@ func genFan(rng *rand.Rand) []*rmodel.Route {
 	return out
 }
 
+// genEmptyTail: under one static prefix, the alternatives for the last position that all have something to say
+// about the path "<prefix>/": the empty segment itself (static), expressions that admit the empty string, a
+// placeholder, match-alls, an optional static - in random registration order. The documented priority decides.
+func genEmptyTail(rng *rand.Rand) []*rmodel.Route {
+	lit := func(s string) rmodel.Segment { return rmodel.Segment{Elems: []rmodel.Elem{{Lit: s}}} }
+	re := func(n, e string) rmodel.Segment {
+		return rmodel.Segment{Elems: []rmodel.Elem{{Params: []rmodel.Param{{Name: n, Value: e, IsRegex: true, Blanks: 1}}}}}
+	}
+	prefix := []rmodel.Segment{lit([]string{"tags", "a", "v1"}[rng.Intn(3)])}
+	if rng.Intn(3) == 0 {
+		prefix = append(prefix, lit("b"))
+	}
+	opt := lit("z")
+	opt.Optional = true
+	alts := []rmodel.Segment{{}, re("rev", "[0-9]*"), re("q", "x?"), re("e", "a|"), re("ext", `(\.(patch|diff))?`), {Elems: []rmodel.Elem{{Bind: "ph"}}},
+		{Elems: []rmodel.Elem{{Params: []rmodel.Param{{Name: "all", Value: "**", Blanks: 1}}}}}, opt}
+	rng.Shuffle(len(alts), func(i, j int) { alts[i], alts[j] = alts[j], alts[i] })
+	var out []*rmodel.Route
+	for _, a := range alts[:2+rng.Intn(len(alts)-1)] {
+		rt := &rmodel.Route{}
+		rt.Segs = append(rt.Segs, prefix...)
+		rt.Segs = append(rt.Segs, a)
+		out = append(out, rt)
+	}
+	return out
+}
+
 func genRouteCase(rng *rand.Rand, flameLevel bool, nPaths int) *routeCase {
 	cfg := gen.Cfg{AllowRoot: true}
 	set := gen.GenSet(rng, cfg, 10)
 	fan := rng.Intn(25) == 0
 	if fan {
 		set = genFan(rng)
+	}
+	if !fan && rng.Intn(25) == 0 {
+		set = genEmptyTail(rng)
 	}
 	fanContinue := fan && rng.Intn(2) == 0
 	c := &routeCase{Level: "tree", Continue: rng.Intn(4) == 0 || fanContinue, RawPath: rng.Intn(3) == 0, Warm: rng.Intn(5) == 0}
